@@ -130,6 +130,8 @@ func c14Gen(r *rand.Rand) *c14Case {
 		if core.Chance(r, 1, 10) {
 			n = 1 // a stub of one line (often without a final newline)
 			f.NoFinal = core.Chance(r, 2, 3)
+		} else if core.Chance(r, 1, 6) {
+			n = 150 + r.Intn(450) // a file of the size of a real rules file: well beyond one or two I/O buffers
 		}
 		if core.Chance(r, 1, 10) {
 			f.LinkTo = core.Pick(r, "site/active-"+fmt.Sprint(i)+".cfg", "local/"+fmt.Sprint(i)+".conf.real")
@@ -198,7 +200,15 @@ func c14Check(env *core.Env, cc core.Case) core.Verdict {
 		if len(c.Files)%3 == 1 {
 			runRoot = filepath.Join(sandbox, "link-to-the-checkout") // the checkout is addressed through a symbolic link to it
 		}
-		r := cli(env, runRoot, nil, "chore", "update-copyright", "-v", ver, "-y", c.Years[i])
+		var r *sut.Result
+		if runRoot != root && i%2 == 1 {
+			// ... and the command is started inside it without -d, as after `cd link-to-the-checkout` in a shell
+			// (PWD holds the path with the link)
+			v.Features = append(v.Features, "started-inside-the-linked-checkout")
+			r = sut.Run(sut.Cmd{Bin: env.Bin, Args: []string{"chore", "update-copyright", "-v", ver, "-y", c.Years[i]}, Dir: runRoot, Env: []string{"PWD=" + runRoot}})
+		} else {
+			r = cli(env, runRoot, nil, "chore", "update-copyright", "-v", ver, "-y", c.Years[i])
+		}
 		if r.Exit != 0 {
 			return core.Viol("rejects-version", "update-copyright -v %s -y %s failed: %s", ver, c.Years[i], describe(r))
 		}
@@ -290,7 +300,7 @@ func init() {
 	register(&core.Property{
 		ID:    "C14",
 		Level: "exploration",
-		Rule: "generated CRS trees (1..4 .conf/.example files anywhere below the root, each 3..27 lines mixing the five marker kinds with prose that merely resembles markers; CRLF; missing final newline; one-line stubs; files reached through a symbolic link; decoys with near-miss names and a file outside the root) start at a version v0 drawn from the accepted forms (x.y.z, -rc1, -RC1, -rc.1, v prefix, +build, x.y, x, git-describe style) and get a sequence of 1..3 update-copyright invocations. " +
+		Rule: "generated CRS trees (1..4 .conf/.example files anywhere below the root, each 3..27 lines (one in seven: 150..600 lines, i.e. 5..25 KiB) mixing the five marker kinds with prose that merely resembles markers; CRLF; missing final newline; one-line stubs; files reached through a symbolic link; the checkout addressed through a link, with -d or by starting the command inside it; decoys with near-miss names and a file outside the root) start at a version v0 drawn from the accepted forms (x.y.z, -rc1, -RC1, -rc.1, v prefix, +build, x.y, x, git-describe style) and get a sequence of 1..3 update-copyright invocations. " +
 			"Oracle after every step: each generated file equals the line model (every marker shows the step's version / its digits / year, every other line as it was), nothing else in the sandbox changed, a repeated command is a no-op. Non-trivial = >= 2 markers and a final version different from v0.",
 		Cases: func(env *core.Env, rng *rand.Rand) []core.Case {
 			n := env.N(800, 8000)
